@@ -132,7 +132,7 @@ impl Context {
         }
         Context {
             input,
-            results: Vec::new(),
+            results: self.results.clone(),
             parent_inputs,
             variables: self.variables.clone(),
             definitions: self.definitions.clone(),
